@@ -121,8 +121,19 @@ func (p *Prog) relPos(pos token.Pos) string {
 // specFor finds the contract of fn (instances of generic functions fall back
 // to the contract of the generic origin).
 func (p *Prog) specFor(fn *ssa.Function) *FuncSpec {
-	if s, ok := p.db.Funcs[fn.String()]; ok {
+	name := fn.String()
+	if s, ok := p.db.Funcs[name]; ok {
 		return s
+	}
+	// methods of instantiated generic types print as (*pkg.T[args]).M[args]
+	if strings.HasPrefix(name, "(") && strings.HasSuffix(name, "]") {
+		if i := strings.LastIndex(name, ")."); i >= 0 {
+			if j := strings.Index(name[i:], "["); j >= 0 {
+				if s, ok := p.db.Funcs[name[:i+j]]; ok {
+					return s
+				}
+			}
+		}
 	}
 	if o := fn.Origin(); o != nil {
 		if s, ok := p.db.Funcs[o.String()]; ok {
@@ -318,6 +329,7 @@ func (p *Prog) verifyFunction(fn *ssa.Function, spec *FuncSpec) *FuncResult {
 	vc.cover("requires-satisfiable", fn.Pos())
 	// frame
 	vc.modAll = spec.ModAll
+	vc.modHeap = spec.ModHeap
 	vc.modLocs = vc.evalModifies(spec, env)
 	vc.checkFrame = true
 	rnames := vc.resultNames(spec, sig)
